@@ -2,7 +2,7 @@
 use super::histprop::HistProp;
 use crate::hist::{Act, Effect, Interp, Monitor, Obs, Step};
 use crate::ops::{CfgProfile, Weights};
-use crate::oracle::{flow, pos_ref, PosRef};
+use crate::oracle::{flow, pos_ref, pos_ref_m, PosRef};
 use crate::refmath::{pnl, S};
 use crate::run::{Outcome, Violation};
 use crate::world::World;
@@ -12,16 +12,13 @@ use serde_json::json;
 pub struct Mon {
     pre_ref: Option<PosRef>,
     interesting: u64,
-    /// harness model of each position's funding checkpoint: the cumulative fraction at the owner's last charged
-    /// operation (open / trade / partial close / withdraw), independent of the stored checkpoint
-    l_model: std::collections::BTreeMap<(usize, usize), S>,
 }
 
 impl Monitor for Mon {
     fn before(&mut self, it: &mut Interp, act: &Act, pre: &Obs, _out: &mut Outcome) -> Option<Violation> {
         self.pre_ref = None;
         if let Act::Close { t, v, .. } = act {
-            self.pre_ref = pos_ref(&it.w, pre, *v, *t);
+            self.pre_ref = pos_ref_m(&it.w, pre, *v, *t);
         }
         None
     }
@@ -33,17 +30,13 @@ impl Monitor for Mon {
             match s.effect {
                 Effect::Closed => {
                     let realised = pnl(pr.long, q, pr.notional);
-                    // funding owed according to the history (model checkpoint), not according to the stored checkpoint
-                    let f_model = self
-                        .l_model
-                        .get(&(*v, *t))
-                        .map(|l| crate::refmath::funding_owed(s.pre.v[*v].cpf, *l, pr.signed_size(), d))
-                        .unwrap_or(pr.funding);
-                    if f_model != pr.funding {
-                        out.count("stored_checkpoint_differs_from_history");
+                    // `pr.funding` is the funding owed according to the history model (oracle::FundingModel), not according to
+                    // the stored checkpoint / the engine's current cumulative fraction
+                    if let Some(stored) = pos_ref(w, s.pre, *v, *t) {
+                        if stored.funding != pr.funding {
+                            out.count("stored_funding_differs_from_history_model");
+                        }
                     }
-                    let mut pr = pr.clone();
-                    pr.funding = f_model;
                     let equity = pr.equity(&realised);
                     let paid = flow(&s.res.xfers, Some(w.engine.as_str()), trader);
                     out.count("whole_close_checks");
@@ -128,27 +121,6 @@ impl Monitor for Mon {
                     .with("act", s.act.name())
                     .with("effect", format!("{:?}", s.effect)),
                 );
-            }
-        }
-        // model checkpoint bookkeeping (C11's statement: charged at owner trades, withdrawals, closes, full liquidation)
-        if s.res.ok {
-            if let Some((v, t)) = s.act.subject() {
-                let exists = s.post.pos[v][t].as_ref().map(|p| !p.size.is_zero()).unwrap_or(false);
-                match s.act {
-                    Act::Open { .. } | Act::Close { .. } | Act::Withdraw { .. } => {
-                        if exists {
-                            self.l_model.insert((v, t), s.pre.v[v].cpf);
-                        } else {
-                            self.l_model.remove(&(v, t));
-                        }
-                    }
-                    Act::Liquidate { .. } => {
-                        if !exists {
-                            self.l_model.remove(&(v, t));
-                        }
-                    }
-                    _ => {}
-                }
             }
         }
         let _ = d;
